@@ -56,6 +56,14 @@ def gen_mapping(rng):
         for h in range(a, b + 1):
             T.setdefault(h, rng.randint(-50, 50) * 10 + 37 * h)
             m.setdefault(h, []).append((s, float(T[h] + c + (rng.randint(-noise, noise) if noise else 0))))
+    # the (series, time) pairs of a level come in no promised order, nor do the levels
+    if rng.random() < 0.6:
+        for h in m:
+            rng.shuffle(m[h])
+    if rng.random() < 0.5:
+        items = list(m.items())
+        rng.shuffle(items)
+        m = dict(items)
     return m
 
 
